@@ -629,8 +629,14 @@ def check(ctx):
 
     def upgrading(a: T):
         if a.op == "call" and tm.callee_name(a) in (
-                ".exists", ".is_file", "os.path.exists", "os.path.isfile"):
+                ".exists", ".is_file", "os.path.exists", "os.path.isfile",
+                "pathlib.Path.exists", "pathlib.Path.is_file"):
             return True
+        if a.op == "cmp" and a.args[0] in ("In", "NotIn") and \
+                a.args[1].op == "attr" and a.args[1].args[1] == "name" and \
+                any(is_call_to(z, "os.scandir", "os.listdir", ".iterdir")
+                    for z in a.args[2].walk()):
+            return a.args[0] == "In"      # found in the directory listing
         if a.op == "cmp" and any(
                 x.op in ("global", "named") and
                 str(x.args[0]).endswith("__version__") for x in a.walk()):
@@ -702,10 +708,17 @@ def check(ctx):
                     "not found")
         for w in ws:
             # guarded by `not <path>.exists()` of the same artefact
+            def listed(a: T) -> bool:
+                # `<path>.name in <names of a directory listing>`
+                return a.op == "cmp" and a.args[0] == "In" and \
+                    a.args[1].op == "attr" and a.args[1].args[1] == "name" \
+                    and any(is_call_to(z, "os.scandir", "os.listdir",
+                                       ".iterdir") for z in a.args[2].walk())
             guards = [a for a in tm.atoms(w.live)
-                      if a.op == "call" and tm.callee_name(a) in (
+                      if (a.op == "call" and tm.callee_name(a) in (
                           ".exists", "os.path.exists", ".is_file",
-                          "os.path.isfile")]
+                          "os.path.isfile", "pathlib.Path.exists",
+                          "pathlib.Path.is_file")) or listed(a)]
             mine = [g for g in guards if any(
                 x.op == "global" and prot.get(x.args[0]) == fname
                 for x in g.walk())]
